@@ -8,6 +8,7 @@ package main
 //  which=2  (tree|0 #mode invert (cond...) (event...) now tables)  processor.isMatch    -> (bit...) | (2)
 //  which=3  same case, through fd.SetupActions + a real pipeline with a discard action -> (bit...) | (2)
 //  which=4  (route #mode invert ((path json-value)...) (event...) tables)  the match_fields map as written, see matchcfg.go
+//  which=5  (K n which-2-case)  one rule shared by K goroutines, see shared.go
 
 import (
 	"encoding/json"
@@ -126,6 +127,8 @@ func c14Exec(which int, cs hx.Sx) hx.Sx {
 		return execPipeline(it)
 	case 4:
 		return execMatchCfg(it)
+	case 5:
+		return execShared(it)
 	}
 	panic("c14: unknown which")
 }
@@ -138,16 +141,26 @@ func modeSpelling(name string, nconds int) string {
 	return name
 }
 
-func execIsMatch(it []hx.Sx) hx.Sx {
-	var checker *doif.Checker
+// the selector of a which = 2 / 5 case, built the way fd/util.go hands it to the pipeline
+type rule struct {
+	checker *doif.Checker
+	tree    *rnode
+	conds   pipeline.MatchConditions
+	mode    pipeline.MatchMode
+	invert  bool
+	snap    string // the match conditions as configured (ruleSnap), taken before any evaluation
+}
+
+func buildRule(it []hx.Sx) (*rule, hx.Sx) {
+	r := &rule{}
 	if !hx.IsInt(it[0]) {
-		_, c, err := construct(nodeFromSx(it[0]), 0)
+		r.tree = nodeFromSx(it[0])
+		_, c, err := construct(r.tree, 0)
 		if err != nil {
-			return obsReject
+			return nil, obsReject
 		}
-		checker = c
+		r.checker = c
 	}
-	var conds pipeline.MatchConditions
 	for _, c := range hx.Items(it[3]) {
 		cd := condFromSx(c)
 		if len(cd.nums) > 0 {
@@ -157,17 +170,48 @@ func execIsMatch(it []hx.Sx) hx.Sx {
 		if cd.re != nil {
 			re, err := cfg.CompileRegex("/" + *cd.re + "/")
 			if err != nil {
-				return obsReject
+				return nil, obsReject
 			}
 			mc.Regexp = re
 		}
-		conds = append(conds, mc)
+		r.conds = append(r.conds, mc)
 	}
-	mode := pipeline.MatchModeFromString(modeSpelling(hx.Str(it[1]), len(conds)))
-	if mode == pipeline.MatchModeUnknown {
-		return obsReject
+	r.mode = pipeline.MatchModeFromString(modeSpelling(hx.Str(it[1]), len(r.conds)))
+	if r.mode == pipeline.MatchModeUnknown {
+		return nil, obsReject
 	}
-	invert := hx.Truth(it[2])
+	r.invert = hx.Truth(it[2])
+	r.snap = ruleSnap(r.conds)
+	return r, nil
+}
+
+// rule immutability: evaluating a selector must not write the rule, which all processors of a pipeline share
+// (Pipeline.newProc). "" when the conditions read back are the configured ones (fields, values IN ORDER, regexp text)
+// and the do_if tree equals a fresh construction from the same description.
+func (r *rule) mutated() string {
+	if now := ruleSnap(r.conds); now != r.snap {
+		return "match conditions changed by evaluating them: configured " + r.snap + " now " + now
+	}
+	if r.checker != nil {
+		if _, fresh, err := construct(r.tree, 0); err == nil && fresh != nil {
+			if e := r.checker.IsEqualTo(fresh); e != nil {
+				return "do_if tree changed by evaluating it: " + e.Error()
+			}
+		}
+	}
+	return ""
+}
+
+// observation of a rule that was written by its own evaluation: no sub-model produces it, so the verdict is Violates
+func obsMutated(detail string, bits []hx.Sx) hx.Sx {
+	return hx.L(hx.I(8), hx.L(bits...), hx.S(detail))
+}
+
+func execIsMatch(it []hx.Sx) hx.Sx {
+	r, rej := buildRule(it)
+	if rej != nil {
+		return rej
+	}
 	var bits []hx.Sx
 	for _, ev := range hx.Items(it[4]) {
 		root := decode(ev)
@@ -175,12 +219,15 @@ func execIsMatch(it []hx.Sx) hx.Sx {
 			return obsBadEvt
 		}
 		var res bool
-		p := hx.Catch(func() { res = pipeline.VerifIsMatchC14(conds, mode, invert, checker, root) })
+		p := hx.Catch(func() { res = pipeline.VerifIsMatchC14(r.conds, r.mode, r.invert, r.checker, root) })
 		insaneJSON.Release(root)
 		if p != "" {
 			return hx.L(hx.I(3), hx.S(p))
 		}
 		bits = append(bits, hx.Bool(res))
+	}
+	if d := r.mutated(); d != "" {
+		return obsMutated(d, bits)
 	}
 	return hx.L(bits...)
 }
